@@ -175,11 +175,17 @@ def parse_output_models(out):
     cur = None
     sect = None
     soln = None
+    pending = {"range_err": 0, "roundoff": 0}
     for line in text.split("\n"):
+        if "Error in subroutine range" in line:
+            pending["range_err"] += 1
+        if "CL1: Roundoff errors" in line:
+            pending["roundoff"] += 1
         m = re.match(r"^Solution (\d+): ", line + " ")
         if m:
             if cur is None or sect in ("phases", "redox", "tail"):
-                cur = {"solutions": {}, "fractions": {}, "phases": {}, "redox": {}, "minimal_note": False, "order": []}
+                cur = {"solutions": {}, "fractions": {}, "phases": {}, "redox": {}, "minimal_note": False, "order": [], "pre": pending}
+                pending = {"range_err": 0, "roundoff": 0}
                 models.append(cur)
             soln = int(m.group(1))
             cur["solutions"][soln] = {}
@@ -394,6 +400,7 @@ def judge(problem, stoich, out, selstr):
     sets = []
     for k, (mod, row) in enumerate(zip(models, rows)):
         tag = "model %d of %d" % (k + 1, len(models))
+        start = len(problems)
         f = {n: row["Soln_%d" % n] for n in solns}
         t = {p: row[p] for p in phases}
         # ---- the two reports describe the same model (string 12 digits vs print 4 digits)
@@ -505,6 +512,14 @@ def judge(problem, stoich, out, selstr):
                 problems.append(("balance: printed adjusted concentrations do not balance",
                                  "%s: element %s: sum f (c+d) + sum t nu - (c+d)_final = %r mol, print rounding allows %r" % (tag, e, r2, err)))
         sets.append(frozenset(["s%d" % n for n in solns if f[n] != 0] + [p for p in phases if t[p] != 0]))
+        pre = mod["pre"]
+        info.setdefault("pre", []).append((pre["range_err"], pre["roundoff"]))
+        for i in range(start, len(problems)):
+            fp, what = problems[i]
+            if pre["range_err"] and fp.startswith("range:"):
+                problems[i] = (fp + " |R", what)
+            elif pre["roundoff"]:
+                problems[i] = (fp + " |r", what)
     info["sets"] = [sorted(s) for s in sets]
     # ---- (iv) -minimal
     if opts.get("minimal"):
@@ -520,3 +535,13 @@ def judge(problem, stoich, out, selstr):
             seen.add(p[0])
             uniq.append(p)
     return uniq, info
+
+
+def declared_unc(inv, rowname, q):
+    """Declared uncertainty (signed) of an element / valence-state row for solution number q."""
+    solns = inv["solns"]
+    nsol = len(solns)
+    for name, us in inv.get("balances") or []:
+        if name in (rowname, element_of(rowname)) and us:
+            return dict(zip(solns, expand(us, nsol, None)))[q]
+    return dict(zip(solns, expand(inv.get("unc"), nsol, 0.05)))[q]
